@@ -15,12 +15,12 @@ from rv.gen import lastext
 ID = "C05"
 LEVEL = "exploration"
 TITLES = {
-    "V": ["~Version", "~V", "~Version Information", "~VERSION INFORMATION SECTION", "~v", "~version information"],
-    "W": ["~Well", "~W", "~Well Information Block", "~WELL INFORMATION", "~w", "~well information"],
-    "C": ["~Curve Information", "~C", "~Curves", "~CURVE INFORMATION", "~c", "~curve information"],
-    "P": ["~Parameter", "~P", "~Params Information Block", "~PARAMETER INFORMATION", "~p", "~parameter information"],
-    "O": ["~Other", "~O", "~Other Information", "~OTHER", "~o", "~other information"],
-    "A": ["~ASCII", "~A", "~Ascii Log Data", "~A  DEPT  C1  C2", "~a", "~ascii log data"],
+    "V": ["~Version", "~V", "~Version Information", "~VERSION INFORMATION SECTION", "~v", "~version information", "~Vers", "~Vendor software release", "~vERSION"],
+    "W": ["~Well", "~W", "~Well Information Block", "~WELL INFORMATION", "~w", "~well information", "~Wellsite data", "~W1", "~wELL"],
+    "C": ["~Curve Information", "~C", "~Curves", "~CURVE INFORMATION", "~c", "~curve information", "~Channels", "~Cu", "~cURVES"],
+    "P": ["~Parameter", "~P", "~Params Information Block", "~PARAMETER INFORMATION", "~p", "~parameter information", "~Pa", "~Program settings", "~pARAMS"],
+    "O": ["~Other", "~O", "~Other Information", "~OTHER", "~o", "~other information", "~Operator remarks", "~Oth", "~oTHER"],
+    "A": ["~ASCII", "~A", "~Ascii Log Data", "~A  DEPT  C1  C2", "~a", "~ascii log data", "~AData", "~Analog traces", "~a1 DEPT K0", "~Acquired log data", "~ASC", "~aSCII"],
 }
 CUSTOM_TITLES = ["~Tools", "~Drilling Notes", "~tools used", "~Remarks 2", "~Xtra", "~Inclinometry", "~Service company notes", "~zones"]
 STEER = [["NULL", "", "55.5"], ["WRAP", "", "YES"], ["VERS", "", "1.2"], ["DLM", "", "COMMA"], ["null", "", "55.5"], ["Vers", "", "3.0"],
@@ -65,7 +65,7 @@ def grid(tier):
                 k += 1
                 yield {"order": order, "spell": "random", "seed": 5 * k + 2, "engine": engine, "steer": None, "extra": 0, "empty_data": True}
     for kind in "VWCPOA":
-        for sp in range(6):
+        for sp in range(len(TITLES[kind])):
             for engine in ("numpy", "normal"):
                 k += 1
                 yield {"order": ["W", "C", "P", "O", "A"], "spell": {kind: sp}, "seed": k, "engine": engine, "steer": None, "extra": 0}
